@@ -46,6 +46,16 @@ def handleXdrSrc : List Sexp → Option String
     pure (toString (list [list (a.strides.map fun s => atom (toString s)), atom (bytesToHex a.buf)]))
   | [atom "xdr-src-rec", list tys, list cells] => do
     pure (srcOut (encCellsFlat (← tys.mapM xdrTy?) (← cells.mapM xdrCell?)))
+  | [atom "xdr-src-cellarr", atom big, c] => do
+    -- `np.array(value)` as the model builds it: dtype char, characters per item, memory
+    let a := (← xdrCell? c).toArr (big == "1")
+    pure (toString (list [atom a.char.code, atom (toString a.chars), atom (bytesToHex a.buf)]))
+  | [atom "xdr-src-recg", list cells] => do
+    -- one record on the general path: cells are `(big cell)`
+    let cs ← cells.mapM fun
+      | list [atom big, c] => do pure (big == "1", (← xdrCell? c))
+      | _ => none
+    pure (srcOut (encCellsGeneral cs))
   | [atom "xdr-src-cellty", c] => do
     match (← xdrCell? c).ty? with
     | some t => pure t.name
